@@ -17,8 +17,8 @@ ROOT = os.path.dirname(os.path.dirname(os.path.abspath(__file__)))
 
 REQUIRED = ["no_loss", "admitted_by_commit", "only_admitted_delivered", "payload_event_per_transaction", "identical_payload_witness", "payload_no_loss_partial", "payload_available_no_loss_fails", "not_admitted_unchanged", "no_call_after_done",
             "no_call_after_done_split", "completed_job_gone", "call_after_done_without_presence_check", "call_after_done_when_write_back_recreates", "shared_key_witness",
-            "delay_monotone", "delay_doubles", "typed_of_filter", "realSubs_are_the_registrations",
-            "restart_redelivers", "delivered_at_least_once", "eventual_delivery", "eventual_delivery_from_start", "failed_visible",
+            "delay_monotone", "delay_doubles", "resume_delay_continues", "resume_delay_monotone", "spawn_base_is_recorded_failures_plus_one", "typed_of_filter", "realSubs_are_the_registrations",
+            "resume_skips_event_finished_meanwhile", "restart_redelivers", "delivered_at_least_once", "eventual_delivery", "eventual_delivery_from_start", "failed_visible",
             "completed_or_visible", "parked_witness",
             "fact_retry_constants", "fact_retry_arithmetic", "fact_retry_backoff", "fact_notifyNow_retries",
             "fact_run_replays_every_job", "fact_start_runs_every_notifier", "fact_receiver_error_classification", "fact_registration_receivers", "fact_cleanup_only_named_subscriber_and_prefix", "fact_subscribers_persist_on_the_dag_store", "fact_save_only_new_events", "fact_failed_events_threshold", "fact_save_in_write_tx_notify_after_commit",
@@ -87,6 +87,7 @@ def oracle(h, threshold):
     completed = {}      # (s, r) -> index of completion
     called = set()      # (s, r) with a non-crash call
     finfail_keys = set()
+    types_delivered = {}
     fin_during = set()
     prev_jobs = {}
     last_restart_stopped = False
@@ -149,6 +150,7 @@ def oracle(h, threshold):
                 fin_during.add((s, r))
             if o != "crash":
                 called.add((s, r))
+                types_delivered.setdefault((s, r), set()).add(ty)
         # --- completion records: done calls whose job is gone, Finished from outside that removed a job
         for (s, r, ty, ret, o) in calls:
             o = o.replace("!content", "")
@@ -184,6 +186,19 @@ def oracle(h, threshold):
                     fl = subs[s]["filters"]
                     if typed(fl) and sel(fl, txs[r], ty) and (s, r) not in called and (s, r) not in completed:
                         report("C14:never-delivered", f"admitted {ty} event of ref {r} was never delivered to {subs[s]['name']}", i)
+            # a persistent subscriber WITHOUT a type filter (the harness's hostile registration; none exists in the source):
+            # transaction and payload event share the job key, Save keeps one job - the other event is never delivered
+            for s in range(nsubs):
+                fl = subs[s]["filters"]
+                if typed(fl):
+                    continue
+                for r in dag:
+                    both = (r, "tx") in admitted and (r, "payload") in admitted and sel(fl, txs[r], "tx") and sel(fl, txs[r], "payload")
+                    if both and (s, r) not in jobs and (s, r) not in fin_during and len(types_delivered.get((s, r), set())) == 1 \
+                            and not any(o2["op"] == "fin" and o2.get("s") == s and o2.get("ref") == r for o2 in h.ops):
+                        got = next(iter(types_delivered[(s, r)]))
+                        report("C14:subscriber-selecting-both-event-types-keeps-one-job",
+                               f"subscriber {subs[s]['name']} (no type filter) selects the transaction and the payload event of ref {r} but only the {got} event was delivered; its single job is finished", i)
             for (s, r), j in jobs.items():
                 if j[1] < threshold and j[2] != "ctx" and (s, r) not in finfail_keys and s < len(subs) and typed(subs[s]["filters"]):
                     report("C14:undelivered-job-not-visible-as-failed", f"job {subs[s]['name']}/{r} rests with retries={j[1]} (< {threshold}) and no retry pending", i)
@@ -273,10 +288,15 @@ def run(ctx):
     reported = set()
     for h in hs:
         for sig, text, i in oracle(h, threshold):
-            n_viol += 1
+            known_open = any(k.get("status", "open") == "open" and re.fullmatch(k["signature"], sig) for k in ctx.known)
+            if not known_open:
+                n_viol += 1
             if sig in reported:     # one replay per kind of failure; the rest is counted
                 continue
             reported.add(sig)
+            if known_open:          # listed open finding: print the KNOWN-FINDING line, no shrinking, does not fail the run
+                ctx.violation(sig, text, "known.jsonl", "")
+                continue
             replay = [json.dumps(h.cfg), *[json.dumps(o) for o in h.ops[:i + 1]]]
             if not ctx.replay and time.time() - t_shrink < (240 if ctx.thorough else 40):
                 replay = shrink(ctx, binary, h, i, sig, threshold) or replay
@@ -288,6 +308,7 @@ def run(ctx):
     #      of its three steps to the handler; replays the second-payload witness, also across a restart)
     if not ctx.replay:
         handler_oracle(ctx)
+        resume_oracle(ctx, binary)
         start_oracle(ctx)
         classification_oracle(ctx)
 
@@ -296,14 +317,14 @@ def run(ctx):
     for raw in ops[:40]:
         if raw and '"timing"' in raw:
             op = json.loads(raw)
-            gaps, d = op.get("gapsNs", []), op["dNs"]
+            gaps, d, k0 = op.get("gapsNs", []), op["dNs"], op.get("k", 0)
             n_timing += 1
             cap = (facts or {}).get("retryMaxDelayNs", 86400 * 10**9)
-            short = [k for k, g in enumerate(gaps) if g < min(cap, d * 2 ** (k + 1))]
-            ctx.oblige(f"oracle:real-backoff-sleeps(d={d}ns)", len(gaps) >= 6 and not short,
+            short = [k for k, g in enumerate(gaps) if g < min(cap, d * 2 ** (k0 + 1 + k))]
+            ctx.oblige(f"oracle:real-backoff-sleeps(d={d}ns,recorded-failures={k0})", len(gaps) >= (6 if k0 == 0 else 3) and not short,
                        f"gaps {gaps} shorter than back-off at attempts {short}" if short else f"{len(gaps)} gaps observed (ns): {gaps}")
             if short:
-                ctx.violation("C14:retry-sleep-shorter-than-backoff", f"retry loop with delay {d}ns slept {gaps} ns; attempts {short} came earlier than retryDelay*2^(1+k)",
+                ctx.violation("C14:retry-sleep-shorter-than-backoff", f"retry loop with delay {d}ns resumed with {k0} recorded failures slept {gaps} ns; attempts {short} came earlier than retryDelay*2^({k0}+1+n)",
                               "retry-sleep-shorter-than-backoff.jsonl", json.dumps(cfg) + "\n" + raw + "\n")
     ctx.cov["real_timing_loops"] = n_timing
 
@@ -423,6 +444,46 @@ def handler_oracle(ctx):
     if wrong:
         ctx.violation("C14:receiver-misclassifies:private", f"real handlePrivateTxRetry: expected {want}, observed {got} (dlq {dlq})",
                       "receiver-classification-private.txt", f"scenario of harness/inpkg/network/transport/v2/zz_verif_c14_test.go: expected {want}, observed {got}, dlq {dlq}\n")
+
+
+def resume_oracle(ctx, binary):
+    """Finished() lands while Run is resuming several jobs of one notifier: Run must re-read the shelf for every job; an
+    event whose completion (Finished, or done of its own call) was recorded is not delivered"""
+    d = os.path.join(ctx.scratch, "outr")
+    rc, log, out = ctx.run_harness(binary, "TestVerifC14Resume", {"VERIF_ROUNDS": 60 if ctx.thorough else 12}, outdir=d, timeout=300)
+    if rc != 0:
+        ctx.oblige("resume-harness-runs", False, "\n".join(l for l in log.split("\n") if "level=audit" not in l)[-1200:])
+        return
+    bad, rounds, n_fin_pending = [], 0, 0
+    for l in ctx.read_lines(os.path.join(out, "resume.out")):
+        m = re.match(r"round=(\d+) jobs=(\d+) run=(\S+) log=(.*)$", l)
+        if not m:
+            continue
+        rounds += 1
+        completed, called = set(), set()
+        for ev in filter(None, m.group(4).split(",")):
+            kind, i = ev.split(":")
+            if kind == "call":
+                if i in completed:
+                    bad.append((m.group(1), i, l))
+                called.add(i)
+            elif kind == "fin":
+                if i not in called:
+                    n_fin_pending += 1
+                completed.add(i)
+            elif kind == "done":
+                completed.add(i)
+        if m.group(3) != "nil":
+            bad.append((m.group(1), "run-error", l))
+    ctx.oblige("resume-harness-runs", rounds > 0 and n_fin_pending > 0, f"{rounds} rounds, {n_fin_pending} Finished() calls for jobs the resume loop had not reached yet")
+    ctx.oblige("oracle:resume:no-delivery-of-an-event-finished-while-Run-was-resuming", not bad,
+               "; ".join(f"round {r}: job {i}" for r, i, _ in bad[:4]))
+    if bad:
+        r, i, line = bad[0]
+        ctx.violation("C14:call-after-completion:Run-delivers-a-stale-snapshot",
+                      f"real notifier.Run (round {r}): job {i} was delivered after its completion had been recorded (Finished() during the delivery of an earlier job)",
+                      "run-delivers-stale-snapshot.txt", "scenario of TestVerifC14Resume in harness/inpkg/network/dag/zz_verif_c14_test.go (VERIF_SEED=%s), failing round:\n%s\n" % (ctx.seed, line))
+    ctx.cov["resume_leg"] = {"rounds": rounds, "finished_before_reached": n_fin_pending}
 
 
 def start_oracle(ctx):
